@@ -8,8 +8,9 @@
           <cid> PSN <k> x'...        the same call on a hierarchy whose scratch is poisoned with 1e30
      <cid> stg  (same hierarchy)  x[n] b[n] { b_l[n_l] x_l[n_l] }^(levels 1..)   the library's level vectors after the cycle
        -> <cid> STGX l x...   what level l returns given the library's coarse correction;  <cid> STGB l+1 b...  what it restricts
-     <cid> slv  (same hierarchy)  <tol> <maxit> <ztol_flag> x[n] b[n]
-       -> <cid> IT <iters>  /  <cid> RES r0 r1 ...  (squared relative residuals)  /  <cid> X x...  *)
+     <cid> slv <tol> <maxit> n nnz (i j v)* b[n] x0[n] m { x_k[n] }^m       A (stored entries), b, x0 and the library's iterates
+       -> <cid> IT <iters> / <cid> RES2 m0 m1 ...  (measures: squared (relative) residual norms, `nan` when not finite)
+          <cid> FIN 0|1 (returned vector finite) / <cid> LAST 0|1 (returned vector = the library's iterate number IT)  *)
 open Model
 open Conv
 
@@ -90,6 +91,33 @@ let run_case cid (t : toks) =
         else Printf.printf "%s STGX %d %s\n" cid l (qs_str (q_c_coarse h.ch_trans h.ch_coarse xin bin))
       | _ -> failwith "stg: level count"
     in go 0 h.ch_levels (x, b) lower
+  | "slv" ->
+    (* the solve wrapper on the library's own iterates: cyc = "the iterate that follows x in the library's list" *)
+    let tol = next_q t in
+    let maxit = next_nat t in
+    let n = next_int t in
+    let trip = read_trip t in
+    let rows = Array.make n [] in
+    List.iter (fun (i, j, v) -> rows.(i) <- (nat_of_int j, v) :: rows.(i)) (List.rev trip);
+    let a = Array.to_list rows in
+    let xv () = take n (fun () -> let s = next t in
+                         let ls = String.lowercase_ascii s in
+                         let has sub = let n = String.length ls and m = String.length sub in
+                           let rec go i = i + m <= n && (String.sub ls i m = sub || go (i + 1)) in go 0 in
+                         if has "nan" || has "inf" then NaNv else Fin (q_of_token s)) in
+    let b = xv () in let x0 = xv () in
+    let m = next_int t in
+    let its = Array.of_list (x0 :: take m (fun () -> xv ())) in
+    let cyc x _ =
+      let rec find k = if k >= Array.length its then x
+        else if its.(k) = x then (if k + 1 < Array.length its then its.(k + 1) else x) else find (k + 1) in
+      find 0 in
+    let r = q_solve_now tol cyc a b x0 maxit in
+    let xs = function Fin q -> q_str q | NaNv -> "nan" in
+    Printf.printf "%s IT %d\n" cid (int_of_nat r.r_iter);
+    Printf.printf "%s RES2 %s\n" cid (String.concat " " (List.map xs r.r_res));
+    Printf.printf "%s FIN %d\n" cid (if all_fin r.r_x then 1 else 0);
+    Printf.printf "%s LAST %d\n" cid (if r.r_x = its.(min (int_of_nat r.r_iter) (Array.length its - 1)) then 1 else 0)
   | _ -> Printf.printf "%s UNSUPPORTED %s\n" cid op
 
 let () =
